@@ -18,6 +18,9 @@ need from the schema.  `Facts` is that part of the schema, written by the python
 * `#type <schema-path> <descriptor>`                  value type of a terminal that is neither string, boolean nor enumeration:
                                                       the descriptors of `Val.Drv.parseTy` (`i32`, `u8`, `d2`, `bits:<hex>=<pos>,…`)
                                                       or `idref:<mod>:<name>,…` (the bases)
+                                                      or `union:<member>|<member>…` in the order of the `type` statements, member = one of
+                                                      the above, `enum:<hex name>,…` or `str`
+* `#inst <schema-path>`                               `type instance-identifier` (`deref()`, `YangInst.lean`)
 
 `<schema-path>` = `/mod:name/mod:name…` of the data node without predicates (choice / case are not part of it).
 
